@@ -94,10 +94,64 @@ def _is_denied(path: str) -> bool:
 
 
 def _env_assignments(p1):
+    """(key, value expr, node) for everything _lua_reset_env stores in `env`: `env["k"] = v` statements, and loops that copy a
+    local table display into env -- `for i = 1, #T do local e = T[i]; env[e[1]] = e[2] end`, `for _, e in ipairs(T) do env[e[1]] =
+    e[2] end` over a list of {name, value} pairs, `for k, v in pairs(T) do env[k] = v end` over a table with constant string keys.
+    A store under a computed key in any other shape makes the enumeration incomplete (inconclusive)."""
     fn = p1.func_named("_lua_reset_env")
     if fn is None:
         raise AnalysisError("_lua_reset_env vanished")
     out = []
+    handled = set()
+
+    def table_of(name_node):
+        if name_node is None or name_node.kind != "name":
+            return None
+        d = p1.res.ref.get(name_node)
+        if d is not None and d.value is not None and d.value.kind == "table" and not d.assigned_later:
+            return d.value
+        return None
+
+    def is_elem(e, var: str, idx: int) -> bool:
+        return e.kind == "index" and e.obj.kind == "name" and e.obj.id == var and e.key.kind == "number" and str(e.key.value) in (str(idx), str(idx) + ".0")
+
+    for loop in L.walk(fn):
+        tbl = entry = None
+        if loop.kind == "fornum" and L.text(loop.start) == "1" and loop.stop.kind == "unop" and loop.stop.op == "#":
+            tbl = table_of(loop.stop.operand)
+            # local e = T[i]
+            for st in loop.body:
+                if st.kind == "local" and len(st.names) == 1 and st.exprs and st.exprs[0].kind == "index" \
+                        and L.text(st.exprs[0].obj) == L.text(loop.stop.operand) and L.text(st.exprs[0].key) == loop.var:
+                    entry = st.names[0]
+        elif loop.kind == "forin" and len(loop.exprs) == 1 and loop.exprs[0].kind == "call" and L.text(loop.exprs[0].func) in ("ipairs", "_orig_ipairs") \
+                and len(loop.names) == 2:
+            tbl = table_of(loop.exprs[0].args[0]) if loop.exprs[0].args else None
+            entry = loop.names[1]
+        elif loop.kind == "forin" and len(loop.exprs) == 1 and loop.exprs[0].kind == "call" and L.text(loop.exprs[0].func) in ("pairs", "_orig_pairs") \
+                and len(loop.names) == 2:
+            tbl = table_of(loop.exprs[0].args[0]) if loop.exprs[0].args else None
+            if tbl is not None:
+                for st in loop.body:
+                    if st.kind == "assign" and len(st.targets) == 1 and st.targets[0].kind == "index" and L.text(st.targets[0].obj) == "env" \
+                            and L.text(st.targets[0].key) == loop.names[0] and L.text(st.exprs[0]) == loop.names[1]:
+                        for k, v in tbl.fields:
+                            ks = L.const_string(k)
+                            if ks is None:
+                                raise AnalysisError("_lua_reset_env: table copied into env has a non-constant key")
+                            out.append((ks, v, st))
+                        handled.add(id(st))
+            continue
+        if tbl is None or entry is None:
+            continue
+        for st in loop.body:
+            if st.kind == "assign" and len(st.targets) == 1 and st.targets[0].kind == "index" and L.text(st.targets[0].obj) == "env" \
+                    and is_elem(st.targets[0].key, entry, 1) and is_elem(st.exprs[0], entry, 2):
+                for _, pair in tbl.fields:
+                    if pair.kind != "table" or len(pair.fields) != 2 or L.const_string(pair.fields[0][1]) is None:
+                        raise AnalysisError("_lua_reset_env: the list copied into env is not a list of {\"name\", value} pairs")
+                    out.append((L.const_string(pair.fields[0][1]), pair.fields[1][1], st))
+                handled.add(id(st))
     for n in L.walk(fn):
         if n.kind == "assign":
             for t, v in zip(n.targets, n.exprs):
@@ -105,6 +159,8 @@ def _env_assignments(p1):
                     k = L.const_string(t.key)
                     if k is not None:
                         out.append((k, v, n))
+                    elif id(n) not in handled and v.kind != "nil":
+                        raise AnalysisError("_lua_reset_env: `{}` stores into env under a computed key in an unrecognised shape".format(L.text(n)[:60]))
     return fn, out
 
 
